@@ -1,40 +1,53 @@
 (* C17 - Lazy directory loading, filtered views and the fs adaptor are transparent.
-   Only statements here; model in Model/IndexLoad.v, proofs in Proofs/IndexLoad{Base,Proofs,Thms}.v.
+   Only statements here; model in Model/IndexLoad.v, proofs in
+   Proofs/IndexLoad{Base,Proofs,More,Thms,Explicit}.v.
 
-   Hypotheses (all decidable on a concrete index; Examples ex_ok / ex_wf in IndexLoadThms.v):
+   Hypotheses (all decidable on a concrete index; Examples ex_ok / ex_wf / ex_lwf beside the proofs):
      ok E i   every unloaded directory entry under the storage prefix names a loadable directory object;
      wf E i   nothing is stored beneath (or twice at) an unloaded directory entry, the root key has
-              no entry - the premise of the property ("holds a directory as a single unloaded entry").
+              no entry - the premise of the property ("holds a directory as a single unloaded entry");
+     lwf E i  (C17_explicit only) the listings of the directory objects in play are trees: no row key
+              is a proper prefix of another row key;  NoDup (map fst i): the index is a finite map.
 
-   Deviations from DESIGN section 6, stated:
-   * C17_transparent is proved for every operation but the hash-level diff and the *shallow*
-     iteration ([supported]); hence the name C17_transparent_partial.  Full statement:
-         forall ops i, ok E i -> wf E i -> answers E i ops = answers E (load_all E i) ops.
-     Missing: the simulation lemma for [diff_node] (induction on the fuel with the per-child state
-     threading; it needs nothing beyond ls_sim/get_sim, which are proved) and for items_q .. true
-     (the [top] predicate).  Both operations are in the executable model and in the
-     correspondence on every run, and agree on the worked example (ex_unsupported_agree).
-   * C17_explicit (project (load_all lazy) = project (explicit lazy)) is not proved in general; the
-     two projections are *computed* by the model for every generated case and compared with the
-     real loaded and the real explicit index (correspondence "lazy"), and ex_explicit checks a
-     concrete instance.  Missing: membership characterisation of [node_keys] on both constructions
-     under a tree-shaped-listing hypothesis. *)
+   All five statements of DESIGN section 6 are proved at full strength:
+   C17_transparent quantifies over every operation of the model (Get, Items deep and shallow, Ls,
+   Info, DiffHash, FsLs, FsInfo, FsRead, ViewItems, ViewLs) and every sequence; answers are equal as
+   values ([val]), not up to reordering. *)
 From Coq Require Import NArith List Bool.
-From DvcData Require Import Base.Val Model.IndexLoad Proofs.IndexLoadBase Proofs.IndexLoadProofs Proofs.IndexLoadThms.
+From DvcData Require Import Base.Val Model.IndexLoad Proofs.IndexLoadBase Proofs.IndexLoadProofs Proofs.IndexLoadMore Proofs.IndexLoadThms Proofs.IndexLoadExplicit Proofs.IndexLoadDecide.
 Import ListNotations.
 Open Scope N_scope.
 
-(* every sequence of supported access operations gives, on the lazy index, exactly the answers
-   of the fully loaded index (which itself never changes) *)
-Theorem C17_transparent_partial : forall E ops i,
-  ok E i -> wf E i -> Forall supported ops ->
+(* every sequence of access operations gives, on the lazy index, exactly the answers of the fully
+   loaded index (which itself never changes) *)
+Theorem C17_transparent : forall E ops i,
+  ok E i -> wf E i ->
   answers E i ops = answers E (load_all E i) ops /\ fst (run E (load_all E i) ops) = load_all E i.
-Proof. exact transparent_partial. Qed.
-Print Assumptions C17_transparent_partial.
+Proof. exact transparent. Qed.
+Print Assumptions C17_transparent.
+
+(* the loaded lazy index and the explicit index (the directory's files listed explicitly, computed
+   from the lazy index and the store) have the same (key, is-directory, file hash) for every node *)
+Theorem C17_explicit : forall E i,
+  wf E i -> NoDup (map fst i) -> lwf E i -> project (load_all E i) = project (explicit E i).
+Proof. exact explicit_projection. Qed.
+Print Assumptions C17_explicit.
+
+(* the hypotheses are decidable; [hypsb] is evaluated by the harness on every generated well-formed case *)
+Theorem C17_hyps_decidable : forall E i, hypsb E i = true ->
+  ok E i /\ wf E i /\ NoDup (map fst i) /\ lwf E i.
+Proof. exact hypsb_sound. Qed.
+Print Assumptions C17_hyps_decidable.
+
+Theorem C17_checked : forall E i ops, hypsb E i = true ->
+  answers E i ops = answers E (load_all E i) ops /\
+  project (load_all E i) = project (explicit E i).
+Proof. exact checked. Qed.
+Print Assumptions C17_checked.
 
 (* access only ever loads: whatever the operations did, loading the rest yields the loaded index *)
 Theorem C17_run_loads_only : forall E ops i,
-  ok E i -> wf E i -> Forall supported ops -> load_all E (fst (run E i ops)) = load_all E i.
+  ok E i -> wf E i -> load_all E (fst (run E i ops)) = load_all E i.
 Proof. exact run_loads_only. Qed.
 Print Assumptions C17_run_loads_only.
 
